@@ -16,7 +16,7 @@ RULES = {
          "JSON round trips of ChemicalCompositionVec, ChemicalCompositionMap and ElementSpecification; class = (form, "
          "size, has isotopes, outcome)"),
 }
-MODULES = ["Props.C01", "Inst.C01", "Lemmas.Digits", "Lemmas.PStep", "Inst.C01Ex"]
+MODULES = ["Props.C01", "Inst.C01", "Lemmas.Digits", "Lemmas.PStep", "Inst.C01Ex", "Props.C01I32"]
 
 
 def run(r: Run):
